@@ -30,8 +30,7 @@ fn free_port() -> u16 {
     l.local_addr().unwrap().port()
 }
 
-fn run_mode(mode: &str, conns: &[(bool, Vec<String>)], keep: &[bool], kinds: &[char], threads: usize, max_head: usize, linger_ms: u64) -> String {
-    let port = free_port();
+fn run_mode(mode: &str, port: u16, conns: &[(bool, Vec<String>)], keep: &[bool], kinds: &[char], threads: usize, max_head: usize, linger_ms: u64) -> String {
     let log: Arc<Mutex<HookLog>> = Arc::new(Mutex::new(HookLog::default()));
     let stop = Arc::new(AtomicBool::new(false));
     let decisions: Arc<Vec<bool>> = Arc::new(conns.iter().map(|c| c.0).collect());
@@ -216,8 +215,10 @@ pub fn run(case: &str) -> String {
         (d != "X", steps.split(';').filter(|x| !x.is_empty()).map(|x| x.to_string()).collect())
     }).collect();
     // the three servers run side by side (separate listeners, logs and client threads)
+    // three distinct ports, chosen while all three probe listeners are still bound
+    let ports: Vec<u16> = { let ls: Vec<TcpListener> = (0..3).map(|_| TcpListener::bind("127.0.0.1:0").unwrap()).collect(); ls.iter().map(|l| l.local_addr().unwrap().port()).collect() };
     std::thread::scope(|sc| {
-        let hs: Vec<_> = ["pool", "threaded", "epoll"].iter().map(|m| { let (conns, keep, kinds) = (&conns, &keep, &kinds); sc.spawn(move || run_mode(m, conns, keep, kinds, threads, max_head, linger_ms)) }).collect();
+        let hs: Vec<_> = ["pool", "threaded", "epoll"].iter().zip(ports.iter()).map(|(m, port)| { let (conns, keep, kinds, port) = (&conns, &keep, &kinds, *port); sc.spawn(move || run_mode(m, port, conns, keep, kinds, threads, max_head, linger_ms)) }).collect();
         hs.into_iter().map(|h| h.join().unwrap_or_else(|_| "mode=? PANIC".into())).collect::<Vec<_>>().join(" ## ")
     })
 }
@@ -303,6 +304,8 @@ pub fn gen(ctx: &Ctx) {
         let r = run(&case);
         out.emit(&case, &r, &class, r.contains(",k|") || r.contains(",k;") || r.contains(",c|"));
     }
+    // the close-signal histories of `modes09`, once
+    close_signal_histories(ctx, &mut rng, &mut out, 1);
     // interim responses: k requests with Expect: 100-continue on one connection (the application model has no interim
     // responses: these histories are compared across the three modes only)
     for k in 1..=(if ctx.thorough { 4 } else { 3 }) {
@@ -323,9 +326,18 @@ pub fn gen(ctx: &Ctx) {
 
 /// stream `modes09` (C09 in every serve mode): one connection; a request carrying / provoking a close signal, then probes
 pub fn gen09(ctx: &Ctx) {
-    use crate::s_connexp::{exchange, Req};
     let mut rng = Rng::new(ctx.seed, "modes09");
     let mut out = Out::new(&ctx.dir, "modes09");
+    close_signal_histories(ctx, &mut rng, &mut out, if ctx.thorough { 8 } else { 1 });
+    out.finish();
+}
+
+/// the close-signal histories (also appended, once, to the `modes` stream)
+fn close_signal_histories(ctx: &Ctx, rng: &mut Rng, out: &mut Out, reps: usize) {
+    use crate::s_connexp::{exchange, Req};
+    let _ = ctx;
+    let mut rng = rng;
+    let out = out;
     out.rule = "one connection against serve, serve_threaded and serve_epoll: a first request that signals or provokes a close (request close token; response close token on a plain, streamed or \
                 list-valued response; handler Err of kinds WouldBlock / TimedOut / Interrupted / BrokenPipe / Other; respond-then-Err; hook answer with close; malformed head) or none (controls), \
                 then one or two further requests that must or must not be answered. non-trivial = all".into();
@@ -335,7 +347,6 @@ pub fn gen09(ctx: &Ctx) {
         ("/none", vec![("Connection".into(), b"close".to_vec())]), ("/reader/3000", vec![("connection".into(), b"keep-alive, Close".to_vec())]),
         ("/none", vec![("x-hook".into(), b"answer-close".to_vec())]), ("/none", vec![("x-hook".into(), b"answer".to_vec())]),
     ];
-    let reps = if ctx.thorough { 8 } else { 1 };
     for _ in 0..reps {
         for (path, fields) in &firsts {
             let r = Req { method: "GET", path: path.to_string(), fields: fields.clone(), body: vec![] };
@@ -348,7 +359,6 @@ pub fn gen09(ctx: &Ctx) {
             out.emit(&case, &res, &format!("first={path}"), true);
         }
     }
-    out.finish();
 }
 
 
